@@ -28,6 +28,7 @@ TOp == /\ Ev("Op")
             [] R.op = "line" -> InputLine
             [] R.op = "drop" -> Drop
             [] R.op = "err" -> Err(R.o, R.i)
+            [] R.op = "use" -> Use(R.o, R.i)
             [] R.op = "dest" -> Dest(R.o)
             [] R.op = "expire" -> Expire
 \* the counters observed after the operation
